@@ -290,12 +290,20 @@ func (p *parser) scan() (tkn token.Token, literal string, idx file.Idx) { //noli
 					p.skipSingleLineComment()
 					continue
 				case '*':
+					// 7.4: a multi-line comment that contains a line terminator
+					// counts as a LineTerminator for the syntactic grammar.
+					var newline bool
 					if p.mode&StoreComments != 0 {
-						comment := string(p.readMultiLineComment())
-						p.comments.AddComment(ast.NewComment(comment, idx))
-						continue
+						var comment []rune
+						comment, newline = p.readMultiLineComment()
+						p.comments.AddComment(ast.NewComment(string(comment), idx))
+					} else {
+						newline = p.skipMultiLineComment()
 					}
-					p.skipMultiLineComment()
+					if newline && p.insertSemicolon {
+						p.insertSemicolon = false
+						p.implicitSemicolon = true
+					}
 					continue
 				default:
 					// Could be division, could be RegExp literal
@@ -475,15 +483,17 @@ func (p *parser) readSingleLineComment() []rune {
 	return result[:len(result)-1]
 }
 
-func (p *parser) readMultiLineComment() []rune {
-	var result []rune
+func (p *parser) readMultiLineComment() (result []rune, newline bool) { //nolint:nonamedreturns
 	p.read()
 	for p.chr >= 0 {
 		chr := p.chr
 		p.read()
 		if chr == '*' && p.chr == '/' {
 			p.read()
-			return result
+			return result, newline
+		}
+		if isLineTerminator(chr) {
+			newline = true
 		}
 
 		result = append(result, chr)
@@ -491,7 +501,7 @@ func (p *parser) readMultiLineComment() []rune {
 
 	p.errorUnexpected(0, p.chr)
 
-	return result
+	return result, newline
 }
 
 func (p *parser) skipSingleLineComment() {
@@ -503,18 +513,23 @@ func (p *parser) skipSingleLineComment() {
 	}
 }
 
-func (p *parser) skipMultiLineComment() {
+func (p *parser) skipMultiLineComment() (newline bool) { //nolint:nonamedreturns
 	p.read()
 	for p.chr >= 0 {
 		chr := p.chr
 		p.read()
 		if chr == '*' && p.chr == '/' {
 			p.read()
-			return
+			return newline
+		}
+		if isLineTerminator(chr) {
+			newline = true
 		}
 	}
 
 	p.errorUnexpected(0, p.chr)
+
+	return newline
 }
 
 func (p *parser) skipWhiteSpace() {
